@@ -429,9 +429,144 @@ def esn_raw_inputs_witness(ctx):
             ctx.violation(f"ESN(use_raw_inputs=True).fit raises {r[1]}", c, obligation="esn_raw_inputs")
 
 
+
+# ----------------------------------------------------------------------------- the staging alone
+
+def gen_stage_case(g):
+    """a random DAG of forward nodes, offline readouts (some frozen), online readouts and - rarely - a hand-made
+    node that carries both an offline and an online rule"""
+    n = g.randint(2, 9)
+    pool = ["fwd", "fwd", "fwd", "ridge", "ridge", "ridge", "rls", "frozen"]
+    kinds = [g.choice(pool) for _ in range(n)]
+    if g.chance(0.12):
+        kinds[g.randint(0, n - 1)] = "both"
+    order = list(range(n))
+    g.shuffle(order)
+    p = g.choice([0.2, 0.35, 0.5])
+    edges = [[order[i], order[j]] for i in range(n) for j in range(i + 1, n) if g.chance(p)]
+    if not edges:
+        edges = [[order[0], order[1]]]
+    return {"kind": "stages", "kinds": kinds, "edges": edges}
+
+
+class _Alarm(Exception):
+    pass
+
+
+def _with_alarm(seconds, fn, *a):
+    import signal
+
+    def h(signum, frame):
+        raise _Alarm()
+    old = signal.signal(signal.SIGALRM, h)
+    signal.setitimer(signal.ITIMER_REAL, seconds)
+    try:
+        return fn(*a)
+    finally:
+        signal.setitimer(signal.ITIMER_REAL, 0)
+        signal.signal(signal.SIGALRM, old)
+
+
+def check_stages(ctx, c):
+    """`get_offline_subgraphs` on the node list and edges of a real Model vs the staging model (lean/RpyModel/Stages.lean):
+    same stages, in the same visiting order; the Model's node list is parents-first (hypothesis of
+    C06_staging_terminates); direct oracle: the loop ends, every offline node is trained in exactly one stage, after all
+    its predecessors were run, and never more stages than offline nodes"""
+    from reservoirpy.model import Model
+    from reservoirpy.node import Node
+    from reservoirpy.nodes import Ridge, RLS
+    from reservoirpy.utils.graphflow import get_offline_subgraphs
+    ob = "staging"
+    ctx.stat("stream=staging")
+
+    def mk(kind):
+        name = flow.fresh("s")
+        if kind == "ridge":
+            return Ridge(output_dim=1, name=name)
+        if kind == "frozen":
+            r = Ridge(output_dim=1, name=name)
+            r.is_trainable = False
+            return r
+        if kind == "rls":
+            return RLS(output_dim=1, name=name)
+        if kind == "both":
+            return Node(forward=lambda nd, x: x, backward=lambda nd, X=None, Y=None: None,
+                        train=lambda nd, x, y=None: None, name=name)
+        return Node(forward=lambda nd, x: x, name=name)
+    nodes = [mk(k) for k in c["kinds"]]
+    model = Model(nodes, [(nodes[a], nodes[b]) for a, b in c["edges"]])
+    ids = {nd: i for i, nd in enumerate(nodes)}
+    for nd in model.nodes:
+        if nd not in ids:
+            ids[nd] = len(ids)      # inserted Concat nodes
+    N = len(ids)
+    parents = [[] for _ in range(N)]
+    for a, b in model.edges:
+        parents[ids[b]].append(ids[a])
+    order = [ids[nd] for nd in model.nodes]
+    offline = sorted(ids[nd] for nd in model.nodes if nd.is_trained_offline)
+    n_off = len(offline)
+    ctx.count(c, nontrivial=n_off >= 1 and len(model.edges) >= 2, obligation=ob)
+    ctx.stat(f"offline_nodes={min(n_off, 4)}")
+    if "both" in c["kinds"]:
+        ctx.stat("node with an offline and an online rule")
+    try:
+        res = _with_alarm(5.0, get_offline_subgraphs, list(model.nodes), list(model.edges))
+    except _Alarm:
+        ctx.violation("the staging of Model.fit (get_offline_subgraphs) does not terminate on this model "
+                      "(`while trained != offlines` never becomes false)", c, obligation=ob)
+        return
+    except IndexError:
+        if n_off == 0:
+            return      # nothing to fit: Model.fit rejects such a model before staging it
+        ctx.violation("the staging of Model.fit (get_offline_subgraphs) raises IndexError on a model that has offline "
+                      "nodes to fit (Model.fit accepts it: it fits every node with an offline rule)", c, obligation=ob)
+        return
+    stages = [[ids[nd] for nd in sub[0][0]] for sub in res]
+    ctx.sample({"kinds": c["kinds"], "edges": c["edges"], "stages": stages})
+    # direct oracle
+    seen_trained, run_before = [], set()
+    for st in stages:
+        tr = [v for v in st if v in offline and v not in seen_trained]
+        fw = [v for v in st if v not in tr]
+        for v in tr:
+            missing = [p for p in parents[v] if p not in run_before and p not in fw]
+            if missing:
+                ctx.violation(f"staging: node {v} is trained in a stage although its predecessors {missing} have not "
+                              "been run yet", c, observed=stages, obligation=ob)
+                return
+        for v in fw:
+            if v in offline and v not in seen_trained:
+                ctx.violation(f"staging: offline node {v} is run forward before it was trained", c, observed=stages, obligation=ob)
+                return
+        seen_trained += tr
+        run_before |= set(fw)
+    if sorted(seen_trained) != offline or len(set(seen_trained)) != len(seen_trained):
+        ctx.violation(f"staging: trained nodes {sorted(seen_trained)} are not exactly the offline nodes {offline}, each once",
+                      c, observed=stages, obligation=ob)
+        return
+    if len(stages) > max(n_off, 0):
+        ctx.violation(f"staging: {len(stages)} stages for {n_off} offline nodes (every stage must train at least one)",
+                      c, observed=stages, obligation=ob)
+        return
+    exits = sorted(ids[nd] for nd in model.output_nodes)
+    mo = ctx.model.batch([{"kind": "stages", "regime": "E", "nodes": order, "parents": parents, "exits": exits,
+                           "offline": offline}])[0]
+    if mo[0] != "ok":
+        raise common.FrameworkError("model driver error on C06 stages: " + str(mo[1]))
+    m = mo[1]
+    if not m["topo"]:
+        ctx.violation("the node list of a Model is not parents-first (hypothesis of C06_staging_terminates)", c,
+                      observed={"order": order, "parents": parents}, obligation=ob)
+        return
+    if m["stages"] != stages or not m["all_trained"]:
+        ctx.violation("the stages of get_offline_subgraphs differ from the staging model", c, expected=m["stages"],
+                      observed=stages, found_input=False, obligation=ob)
+
+
 def check_case(ctx, c):
     common.quiet()
-    {"fit": check_fit, "train": check_train}[c["kind"]](ctx, c)
+    {"fit": check_fit, "train": check_train, "stages": check_stages}[c["kind"]](ctx, c)
 
 
 def run(ctx):
@@ -446,6 +581,8 @@ def run(ctx):
         check_case(ctx, gen_fit_case(g))
     for _ in range(ctx.n(70, 900)):
         check_case(ctx, gen_train_case(g))
+    for _ in range(ctx.n(150, 2500)):
+        check_case(ctx, gen_stage_case(g))
 
 
 def replay(ctx, data):
